@@ -100,7 +100,12 @@ static int vr_cnt_register(const char *name)
 #define VR_CNT(name) do { static int _vi = -1; if (_vi < 0) _vi = vr_cnt_register(name); vr_cnt_val[_vi]++; } while (0)
 #define VR_ADD(name, n) do { static int _vi = -1; if (_vi < 0) _vi = vr_cnt_register(name); vr_cnt_val[_vi] += (uint64_t)(n); } while (0)
 #define VR_MAX(name, n) do { static int _vi = -1; if (_vi < 0) _vi = vr_cnt_register(name); if ((uint64_t)(n) > vr_cnt_val[_vi]) vr_cnt_val[_vi] = (uint64_t)(n); } while (0)
-static inline void vr_cnt_dyn(const char *name, uint64_t n) { int i = vr_cnt_register(name); vr_cnt_val[i] += n; }
+/* name may be a temporary string: it is copied on first use */
+static inline void vr_cnt_dyn(const char *name, uint64_t n)
+{
+    for (int i = 0; i < vr_ncnt; i++) if (strcmp(vr_cnt_name[i], name) == 0) { vr_cnt_val[i] += n; return; }
+    int i = vr_cnt_register(strdup(name)); vr_cnt_val[i] += n;
+}
 
 static inline void vr_fp_mix(uint64_t v)
 {
